@@ -113,6 +113,9 @@ class Records:
         rm = m.world.rm
         for r in self.resources:
             recs = data.get('resource_update', {}).get(r)
+            if recs is None and ctx.spec['resources'].get(r) == 0 and rm.get_resource_capacity(r) == 0 \
+                    and rm.get_resource_usage(r) == 0:
+                continue            # a pool that has not been created yet (initial capacity 0)
             if recs is None:
                 ctx.report('resource_record', f'resource {r}: no resource_update record at all')
                 return
